@@ -4,6 +4,7 @@
 From Coq Require Import ZArith List Bool.
 From OV Require Import Emu.EmuCoreDefs Emu.DecodeDefs Emu.StackSpecDefs Emu.TableFactsDefs
   Proofs.EmitProofs Proofs.EmuCoreProofs Proofs.StackProofs.
+From OV Require Emu.ChanPre Gen.Chan_gen Proofs.ChanProofs.
 Import ListNotations.
 Local Open Scope Z_scope.
 
@@ -73,3 +74,58 @@ Example C08_ex_reenter : chan_run sp_ns (empty_stack_chan sp_ns) [Enter 3; Enter
 Proof. vm_compute. reflexivity. Qed.
 Example C08_ex_hist : hist [Enter 3; Enter 4; Leave 4; Enter 5] [5; 3].
 Proof. apply (h_open 3 [Enter 4; Leave 4; Enter 5] [5]). apply (h_closed 4 [] [Enter 5] [5]); [constructor|]. apply (h_open 5 [] []). constructor. Qed.
+
+(* ---------------------------------------------------------------------------------------------
+   The tie to the source.  Gen/Chan_gen.v is regenerated on every run by translate/units/chan.py from
+   src/emu/chan.c (set_dirty, chan_set, chan_push, chan_pop, get_value, chan_flush, chan_dirty, chan_prop_set/get)
+   and chan.h (chan_read), statement by statement, over the channel record of Emu/ChanPre.v.
+   ChanProofs.Rep sp c r : the C channel c is a raw model channel of spec sp holding r (type and properties as
+   model_thread.c sets them: CHAN_ALLOW_DUP = the dup bit, CHAN_DIRTY_WRITE = CHAN_IGNORE_DUP = 0; the first n
+   entries of the stack array = the model's stack; data.value = the model's value).
+   ChanProofs.Clean sp c r : the channel was flushed since its last write (is_dirty = 0, last_value = the value
+   it shows).  This is the one hypothesis that relates the C's dirty bit / last_value to the model, which has
+   neither: the model compares with the value shown, the C with the value at the last flush, and the C refuses a
+   second write before the flush.  The generated chan_flush re-establishes it (second theorem); that the emulator
+   writes a raw channel at most once between two flushes is part of the propagation abstraction (C06), not a lemma.
+   ChanProofs.op_rel : refused by the model <-> the generated function returns -1 (never a NULL dereference);
+   accepted with r' <-> the generated function succeeds, leaves a channel that represents r', dirty, with
+   last_value untouched, having called the dirty callback once if there is one. *)
+Theorem C08_chan_ops_from_source : forall sp sx st r,
+  ChanProofs.Rep sp (ChanPre.ch st) r -> ChanProofs.Clean sp (ChanPre.ch st) r -> ChanProofs.cb_ok sx (ChanPre.ch st) ->
+  (forall v, ChanProofs.op_rel sp sx st (Chan_gen.chan_push (Some tt) (ChanProofs.inj (Some v))) (raw_apply sp r PUSH (Some v))) /\
+  (forall v, ChanProofs.op_rel sp sx st (Chan_gen.chan_pop (Some tt) (ChanProofs.inj (Some v))) (raw_apply sp r POP (Some v))) /\
+  (forall ov, ChanProofs.op_rel sp sx st (Chan_gen.chan_set (Some tt) (ChanProofs.inj ov)) (raw_apply sp r SET ov)) /\
+  ChanPre.exec (Chan_gen.chan_read (Some tt) (Some ChanPre.LOut)) sx st =
+    Ok {| ChanPre.ch := ChanPre.ch st; ChanPre.out := ChanProofs.inj (raw_read sp r); ChanPre.ncb := ChanPre.ncb st |}.
+Proof. exact ChanProofs.chan_ops_eq. Qed.
+Print Assumptions C08_chan_ops_from_source.
+
+(* chan_flush on the dirty channel an operation leaves: same content, clean again *)
+Theorem C08_chan_flush_from_source : forall sp sx st r,
+  ChanProofs.Rep sp (ChanPre.ch st) r -> ChanPre.is_dirty (ChanPre.ch st) = 1 ->
+  exists st', ChanPre.exec (Chan_gen.chan_flush (Some tt)) sx st = Ok st' /\
+              ChanProofs.Rep sp (ChanPre.ch st') r /\ ChanProofs.Clean sp (ChanPre.ch st') r /\
+              ChanPre.has_cb (ChanPre.ch st') = ChanPre.has_cb (ChanPre.ch st) /\
+              ChanPre.out st' = ChanPre.out st /\ ChanPre.ncb st' = ChanPre.ncb st.
+Proof. exact ChanProofs.chan_flush_eq. Qed.
+Print Assumptions C08_chan_flush_from_source.
+
+(* hence, with C08_stack_iff: starting from the channel chan_init creates, the generated chan_push / chan_pop (each
+   followed by the generated chan_flush) accept a history iff it is well nested, no innermost region is re-entered
+   (unless duplicates are allowed) and at most MAX_CHAN_STACK regions are open.  No hypothesis is left. *)
+Theorem C08_generated_stack_iff : forall sp sx evs,
+  cs_stack sp = true ->
+  (exists st', ChanProofs.gen_chan_run sx (ChanProofs.st0 sp) evs = Some st') <->
+  (exists o, hist evs o /\ entries_ok (cs_dup sp) evs).
+Proof. exact (fun sp sx evs Es => iff_trans (ChanProofs.gen_chan_accepts sp sx evs Es) (stack_channel_iff sp evs Es)). Qed.
+Print Assumptions C08_generated_stack_iff.
+
+(* the generated functions evaluated on the 512-entry channel of the NODES subsystem channel *)
+Example C08_ex_generated :
+  map (fun evs => match ChanProofs.gen_chan_run {| ChanPre.cb_ret := 0 |} (ChanProofs.st0 sp_ns) evs with
+                  | Some st => Some (ChanPre.sn (ChanPre.ch st), ChanPre.vi (ChanPre.last_value (ChanPre.ch st)))
+                  | None => None
+                  end)
+      [[Enter 3; Enter 4; Leave 4; Enter 5]; [Enter 3; Enter 4; Leave 3]; [Enter 3; Enter 3]; [Leave 3]]
+  = [Some (2, 5); None; None; None].
+Proof. vm_compute. reflexivity. Qed.
